@@ -13,8 +13,15 @@ CFG = {
                   "replays every session on the model (every transition validated by `step`) and compares quiescent states.",
     "components": [{"component": "close", "session_start": "new", "timeout_quick": 120, "timeout_thorough": 900, "shrink_s": 40,
                     "trivial_regex": r"^(skip|error|bad-op.*)$"}],
-    "rule": "quick: 10 hand-written boundary sessions + 8 generated base sequences x every 3rd injection position x 6 closing variants "
+    "rule": "quick: 10 + 8 hand-written boundary sessions + 8 generated base sequences x every 3rd injection position x 6 closing variants "
             "(API goroutine, graceful, from a handler, concurrent, repeated, handler+API); thorough: 150 base sequences x EVERY position. "
+            "ICE-TCP: a REAL TCPMuxDefault (fake listener, ReadBufferSize 1..2), passive TCP host candidate, a client that sends more "
+            "framed packets than the queue holds while the agent is not started / its loop is stuck, Close at every 2nd (thorough: every) "
+            "position (quick 8, thorough 200 base sequences). Socket fault profiles: {blocked write released by deadline | Close | either | "
+            "environment only} x {blocked read released by deadline | Close | either} x {Close instant | slow | fails | slow+fails} = 48 "
+            "profiles, each with a Conn.Write parked in the socket when Close is called (and at one more / thorough: every position); the "
+            "written-bytes result is checked. Sessions with a slow socket Close, environment-only writes or the TCP mux (ids m...) are judged "
+            "by the spec monitor only (outside the model's assumptions). "
             "Evaluation = one operation of a session (real agents, virtual time); non-trivial = every line (each carries events and a digest).",
     "translated": [],
     "trusted_base": ["model CloseSys written by hand against agent.go / taskloop.go / candidate_base.go / agent_handlers.go / transport.go (no generated tie; "
@@ -22,5 +29,8 @@ CFG = {
                      "Go runtime: fair scheduler; select semantics R1; testing/synctest (go1.26.8)"],
     "assumptions": ["GracefulClose is not called synchronously from a handler (documented contract, agent.go:1509-1511); the excluded case is "
                     "proved to deadlock (C08_graceful_in_handler_witness) and the harness can replay it on the real code",
-                    "socket Close / SetDeadline / abortWrite do not block (M2); finitely many datagrams arrive while closing (E)"],
+                    "socket Close / SetDeadline / abortWrite do not block (M2; the harness also runs sockets whose Close is slow — monitor only); "
+                    "finitely many datagrams arrive while closing (E)",
+                    "a write blocked in a socket is released by the deadline, by Close, or eventually by the environment (a write that "
+                    "nothing ever releases makes Close wait forever: not generated)"],
 }
